@@ -14,6 +14,7 @@ CONSTANTS
   CraftToks = {}
   MaxPresent = 2
   Calls = {"exchange", "client", "time", "deliver"}
+  PumpPay = FALSE
   HealRounds = 0
   HealDt = 250
   Bound = 0
